@@ -119,7 +119,31 @@ def fetch_checks(r, F):
                   "the %s future is polled (and its result inserted) without first testing the close flag" % which, ln=p.term.ln)
 
 
+def waiters_get_inserted(r, F):
+    """the waiters taken by an insert are sent a handle to the record that was just inserted (not to anything fetched)"""
+    ii = F.fn("foyer_memory::raw::RawCache::insert_inner")
+    sends = ii.calls_to(r"oneshot::Sender::<T>::send$")
+    if not sends:
+        raise mir.AnchorMissing("insert_inner: no send to the waiters found")
+    for s in sends:
+        sl = backslice(ii, s.term.args[1], "dep")
+        ent = [st for _, st in sl.aggs if st.rv.j.get("adt") == "foyer_memory::raw::RawCacheEntry"]
+        ok = False
+        for st in ent:
+            rec = dict(st.rv.agg_fields())["record"]
+            ok = ok or (2 in backslice(ii, rec, "prov").args)
+        oks = any(st.rv.j.get("variant") == "Ok" for _, st in sl.aggs)
+        r.require(ok and oks, ii, "waiters receive Ok(entry of the inserted record)", "every waiter taken by the insert is answered with a handle to the inserted record",
+                  "the waiters of an in-flight fetch taken over by an explicit insert are not answered with the inserted record", ln=s.term.ln)
+    # and the in-flight entry is taken inside emplace, i.e. under the write lock that publishes the record (see C06.one-critical-section)
+    em = F.method("foyer_memory::raw::RawCacheShard", "emplace")
+    tk = em.calls_to(r"InflightManager::<E, S, I>::take$")
+    r.require(len(tk) == 1 and em.must_pass(0, [tk[0].idx]), em, "emplace takes the in-flight entry on every path", "both the normal and the disk-only insert close a pending fetch",
+              "a path of emplace publishes the record without taking (and closing) the in-flight fetch of the key", ln=em.lo)
+
+
 def run(chk, F):
     chk.run_rule("C11.close-alias", "the close flag stored in the in-flight table and the one given to the fetch task are one allocation", 1, close_alias, F)
     chk.run_rule("C11.take-closes", "take / fetch_or_take set close=true before handing out the waiters", 2, take_closes, F)
+    chk.run_rule("C11.waiters-get-inserted", "an insert answers the waiters it takes with the inserted record, on every path of emplace", 2, waiters_get_inserted, F)
     chk.run_rule("C11.fetch-checks", "RawFetch::poll tests the close flag before polling either fetch; closed => returns without inserting", 2, fetch_checks, F)
